@@ -244,7 +244,10 @@ static void FuncSGN(TempResult* pResult, TempResult const* pArgs, unsigned ArgCn
 static void FuncINT(TempResult* pResult, TempResult const* pArgs, unsigned ArgCnt) {
     UNUSED(ArgCnt);
 
-    if (fabs(pArgs[0].Contents.Float) > IntTypeDefs[LargeSIntType].Max) {
+    /* 2^63 itself does not fit: compare with exact powers of two, not with
+       (double)(2^63-1), which rounds up to 2^63 */
+    if (!((pArgs[0].Contents.Float >= -9223372036854775808.0)
+          && (pArgs[0].Contents.Float < 9223372036854775808.0))) {
         as_tempres_set_none(pResult);
         WrError(ErrNum_OverRange);
     } else {
